@@ -149,6 +149,21 @@ pub fn run(ctx: &mut Ctx) {
 		));
 	}
 
+	// S — sequences of string elements (escapes around the surrogate ranges), strict mode
+	if ctx.wants("S_escape_sequences") {
+		ctx.begin_family("S_escape_sequences");
+		let l = ctx.pick(4, 5);
+		let inputs = super::c12::element_sequences(l);
+		let acc = pf::run_list(&inputs, false, &all);
+		ctx.add(acc.into_fam(
+			"S_escape_sequences",
+			&format!("every sequence of 1..={l} string elements from {:?} as string value, object key and array item, all entry points: accepted <=> every high-surrogate escape is immediately followed by a low-surrogate escape and no other surrogate escape occurs", super::c12::ELEMENTS),
+			true,
+			CLASSES,
+			&extra_all,
+		));
+	}
+
 	// F3 — transition cover
 	if ctx.wants("F3_transition_cover") {
 		let numlen = ctx.pick(5, 7);
